@@ -94,6 +94,17 @@ class Interp:
         if t.get('k') == 'tuple' and not t['elems']:
             return ('unit',)
         if t.get('k') == 'ref':
+            u = c.get('uneval') or {}
+            pb = getattr(self.facts, 'promoted', {}).get('%s::promoted[%s]' % (u.get('path'), u.get('promoted'))) if 'promoted' in u else None
+            if pb is not None:
+                # a promoted constant (`&(MIN..=MAX)`): evaluate the straight-line body that builds it
+                out = []
+                try:
+                    self.explore(pb, 0, {}, st, {}, 1, lambda tree, st2: out.append(tree))
+                except Top:
+                    out = []
+                if len(out) == 1 and out[0][0] == 'refval':
+                    return out[0]
             return ('opaque',)        # &'static str panic messages etc.
         if 'fn' in c:
             return ('fnitem', c['fn'])
@@ -105,7 +116,9 @@ class Interp:
             raise Top('read of unassigned local _%d' % local)
         v = env[local]
         for p in proj:
-            if isinstance(p, list) and p[0] == 'f':
+            if p == '*' and v[0] == 'refval':
+                v = v[1]
+            elif isinstance(p, list) and p[0] == 'f':
                 if v[0] == 'agg':
                     v = v[2][p[1]]
                 else:
@@ -439,6 +452,28 @@ class Interp:
                 self.results.append(('panic', 'Option::%s on None' % name, st))
                 return
             raise Top('Option::%s on unknown option' % name)
+        if path == 'core::ops::range::RangeInclusive::<Idx>::new' and len(args) == 2:
+            cont(('agg', ('adt', 0, 'core::ops::range::RangeInclusive'), [args[0], args[1], ('b', False)]), st)
+            return
+        if name == 'contains' and path in ('core::ops::range::RangeInclusive::<Idx>::contains', 'core::ops::range::Range::<Idx>::contains') and len(args) == 2 \
+                and args[0][0] == 'refval' and args[1][0] == 'refval' and args[0][1][0] == 'agg' and args[1][1][0] == 's':
+            # (lo..=hi).contains(&x)  is  lo <= x && x <= hi   (exclusive upper bound for lo..hi): one state per outcome
+            rng, x = args[0][1], args[1][1][1]
+            lo_v, hi_v = rng[2][0], rng[2][1]
+            if lo_v[0] == 's' and hi_v[0] == 's':
+                lo_a, hi_a = st.vals[lo_v[1]], st.vals[hi_v[1]]
+                if lo_a.lo == lo_a.hi and hi_a.lo == hi_a.hi:
+                    L, H = lo_a.lo, hi_a.lo - (0 if 'Inclusive' in path else 1)
+                    for cond, ret in ((('Lt', L), False), (('Gt', H), False), (None, True)):
+                        st2 = st.clone()
+                        if cond is not None:
+                            if not self.refine(st2, x, cond[0], cond[1], True):
+                                continue
+                        elif not (self.refine(st2, x, 'Ge', L, True) and self.refine(st2, x, 'Le', H, True)):
+                            continue
+                        cont(('b', ret), st2)
+                    return
+            raise Top('range with non-constant bounds')
         if name in ('wrapping_add', 'wrapping_sub', 'wrapping_mul', 'wrapping_neg') and path.startswith('core::num::'):
             # same as the plain operator with overflow checks off
             op = {'wrapping_add': 'Add', 'wrapping_sub': 'Sub', 'wrapping_mul': 'Mul', 'wrapping_neg': 'Neg'}[name]
@@ -518,7 +553,11 @@ class Interp:
                 return ('discr', v[1][1])
             raise Top('discriminant of unknown value')
         if k == 'ref':
-            return ('opaque',)       # e.g. the &str message handed to expect()
+            # a shared reference handed straight to a modelled core function (`range.contains(&x)`): the value it points to now
+            try:
+                return ('refval', self.read(st, env, rv[2]))
+            except Top:
+                return ('opaque',)       # e.g. the &str message handed to expect()
         raise Top('rvalue %s' % k)
 
     @staticmethod
